@@ -304,6 +304,7 @@ pub fn run_scenario(sc: &Scenario) -> ScenarioOut {
                 req_pend: sc.specs[i].req_pend.clone(),
                 req_gaps_ms: sc.specs[i].req_gaps_ms.clone(),
                 timeout: sc.specs[i].timeout,
+                pingpong: sc.specs[i].pingpong,
             };
             tasks.push(tokio::spawn(async move {
                 tokio::time::sleep(Duration::from_millis(start)).await;
